@@ -274,11 +274,11 @@ func c03Order(p *Prog, c *Check) {
 	if !c.Must(err) {
 		return
 	}
-	type vspec struct{ fn, coll, msgParam string }
+	type vspec struct{ fn, coll, suffix string }
 	specs := []vspec{
-		{"keyper/epochkghandler.checkKeyShares", "Shares", "0"},
-		{"keyper/epochkghandler.checkKeysErrors", "Keys", "1"},
-		{"gnosisaccessnode.DecryptionKeysHandler.validateCommonFields", "Keys", "1"},
+		{"keyper/epochkghandler.DecryptionKeyShareHandler.ValidateMessage", "Shares", "DecryptionKeyShares"},
+		{"keyper/epochkghandler.DecryptionKeyHandler.ValidateMessage", "Keys", "DecryptionKeys"},
+		{"gnosisaccessnode.DecryptionKeysHandler.ValidateMessage", "Keys", "DecryptionKeys"},
 	}
 	n := 0
 	for _, s := range specs {
@@ -288,25 +288,50 @@ func c03Order(p *Prog, c *Check) {
 		}
 		c.Analysed(shortFn(fn))
 		fi := p.Info(fn)
-		idx := 0
-		fmt.Sscanf(s.msgParam, "%d", &idx)
+		mt := mk(TAssert, "*p2pmsg."+s.suffix, nil, nil, fi.T(fn.Params[2]))
+		checked := false
 		for _, ap := range acceptPaths(p, fn, accept) {
-			b := Binds{"m": fi.T(fn.Params[idx])}
-			loop := rangeLoopOver(p, fn, ap.r, "len($m."+s.coll+")", b)
-			if loop == nil {
+			b := Binds{"m": mt}
+			found := false
+			nonStrict := p.forallBefore(fn, ap.r, acceptConds(accept), nil, 0, func(lc loopCtx) bool {
+				lb := copyBinds(b)
+				if !ParsePat("len($m." + s.coll + ")").Match(lc.bound(), lb) {
+					return false
+				}
+				lb["i"] = lc.loop.Idx
+				m := func(pat string) func(Atom) bool {
+					apat := ParseAtomPat(pat)
+					return func(a Atom) bool { return apat.Match(a, copyBinds(lb)) }
+				}
+				// only loops that compare neighbouring identities at all
+				mentions := false
+				for blk := range lc.loop.Blocks {
+					for _, sc := range blk.Succs {
+						for _, a := range lc.fi.edgeAtoms(blk, sc) {
+							if strings.Contains(a.s, "Compare") && strings.Contains(a.s, "IdentityPreimage") {
+								mentions = true
+							}
+						}
+					}
+				}
+				if !mentions {
+					return false
+				}
+				found = true
+				first := anyOf(m("$i <= 0"), m("$i < 1"), m("$i == 0"))
+				return lc.everyIteration(anyOf(first,
+					m("0 <= Compare($m."+s.coll+"[$i].IdentityPreimage, $m."+s.coll+"[($i - 1)].IdentityPreimage)"),
+					m("Compare($m."+s.coll+"[($i - 1)].IdentityPreimage, $m."+s.coll+"[$i].IdentityPreimage) <= 0")))
+			})
+			if !found {
 				continue
 			}
+			checked = true
 			n++
-			b["i"] = loop.Idx
-			m := func(pat string) func(Atom) bool {
-				apat := ParseAtomPat(pat)
-				return func(a Atom) bool { return apat.Match(a, copyBinds(b)) }
-			}
-			first := anyOf(m("$i <= 0"), m("$i < 1"), m("$i == 0"))
-			nonStrict := fi.everyIteration(loop, anyOf(first,
-				m("0 <= Compare($m."+s.coll+"[$i].IdentityPreimage, $m."+s.coll+"[($i - 1)].IdentityPreimage)"),
-				m("Compare($m."+s.coll+"[($i - 1)].IdentityPreimage, $m."+s.coll+"[$i].IdentityPreimage) <= 0")))
 			c.Result(nonStrict, rule, shortFn(fn)+":order", p.siteOf(ap.r), shortFn(fn), "identity order check", "the order check of this validator is not the non-strict 'identity[i] >= identity[i-1]' used by the producers' sort and the sibling validators (e.g. it rejects equal neighbours): an honest message with duplicate identities is accepted by some nodes and rejected by others", "continue edge: Compare(cur, prev) >= 0")
+		}
+		if !checked {
+			c.Info("%s: no identity-order loop found before the Accept of %s", rule, shortFn(fn))
 		}
 	}
 	c.Floor(rule, n, 3)
